@@ -254,4 +254,259 @@ theorem stepOK {w : Width} (k : Kind) (c : Word w) (th : Thread w) (h : TInv th)
       cases hpc : th.pc <;> simp only [stepThread, htodo, hpc]
       all_goals (try solve_case)
 
+/-! ### the log -/
+
+theorem replay_append {w : Width} (init : Word w) (l : List (Event w)) (e : Event w) :
+    replay init (l ++ [e]) = applyEv (replay init l) e := by
+  simp [replay, List.foldl_append]
+
+theorem commitsOf_append {w : Width} (t : Nat) (l : List (Event w)) (e : Event w) :
+    commitsOf t (l ++ [e]) = commitsOf t l ++ (e.commitOf t).toList := by
+  simp only [commitsOf, List.filterMap_append]
+  cases h : e.commitOf t <;> simp [List.filterMap, h]
+
+theorem noCommitSince_append {w : Width} (t : Nat) (l : List (Event w)) (e : Event w) :
+    noCommitSince t (l ++ [e]) = (if e.tid = t then true else (!e.kind.isCommit && noCommitSince t l)) := by
+  simp [noCommitSince, noCommitSinceRev]
+
+/-! ### global invariant -/
+
+/-- everything the property theorems need, for a run that started from `initSys w k init progs` -/
+structure Good {w : Width} (init : Word w) (progs : List (List (Oper w))) (s : Sys w) : Prop where
+  /-- the object holds what the committed operations, applied sequentially in commit order, produce -/
+  lin : replay init s.log = some s.cell
+  len : s.threads.length = progs.length
+  tids : ∀ e ∈ s.log, e.tid < progs.length
+  thr : ∀ t th, s.threads[t]? = some th →
+    TInv th ∧
+    progs[t]? = some ((commitsOf t s.log).map Prod.fst ++ th.pendingOps) ∧
+    (commitsOf t s.log).map Prod.snd = th.results ++ th.pendingRes.toList ∧
+    (∀ v, th.believes = some v → noCommitSince t s.log = true → v = s.cell)
+
+theorem pendingRes_mkThread {w : Width} (ops : List (Oper w)) : (mkThread ops).pendingRes = none :=
+  pendingRes_enter _
+
+theorem Good_init {w : Width} (k : Kind) (init : Word w) (progs : List (List (Oper w))) :
+    Good init progs (initSys w k init progs) := by
+  refine ⟨rfl, by simp [initSys], by simp [initSys], ?_⟩
+  intro t th hth
+  simp only [initSys, List.getElem?_map] at hth
+  cases hp : progs[t]? with
+  | none => simp [hp] at hth
+  | some p =>
+    simp [hp] at hth
+    subst hth
+    refine ⟨TInv_mkThread p, ?_, ?_, ?_⟩
+    · simp [initSys, commitsOf, mkThread, pendingOps_enter]
+    · simp [initSys, commitsOf, mkThread, pendingRes_enter, results_enter]
+    · intro v hv; simp [mkThread, believes_enter] at hv
+
+theorem Good_step {w : Width} {init : Word w} {progs : List (List (Oper w))} {s : Sys w}
+    (g : Good init progs s) (t : Nat) : Good init progs (step t s) := by
+  unfold step
+  cases hth : s.threads[t]? with
+  | none => simpa using g
+  | some th =>
+    simp only
+    obtain ⟨hT, hops, hres, hbel⟩ := g.thr t th hth
+    have ok := stepOK s.kind s.cell th hT
+    have htlt : t < s.threads.length := by
+      rcases List.getElem?_eq_some_iff.mp hth with ⟨h, _⟩; exact h
+    generalize hout : stepThread s.kind s.cell th = out at ok
+    obtain ⟨oth, ocell, oev⟩ := out
+    have heff := ok.eff
+    have hbl := ok.bel
+    simp only [Eff, Bel] at heff hbl
+    cases oev with
+    | none =>
+      -- an unlogged private step
+      simp only at heff hbl
+      obtain ⟨hc, hpo, hpr⟩ := heff
+      subst hc
+      refine ⟨by simpa using g.lin, by simpa using g.len, by simpa using g.tids, ?_⟩
+      intro u thu hu
+      simp only [Option.map_none, Option.toList_none, List.append_nil] at hu ⊢
+      by_cases hut : u = t
+      · subst hut
+        rw [List.getElem?_set_self htlt] at hu
+        cases hu
+        refine ⟨ok.tinv, by rw [hpo]; exact hops, by rw [hpr]; exact hres, ?_⟩
+        intro v hv hn
+        exact hbel v ((hbl v hv).2 trivial) hn
+      · rw [List.getElem?_set_ne (Ne.symm hut)] at hu
+        exact g.thr u thu hu
+    | some ek =>
+      have hlog : ∀ u, u ≠ t → commitsOf u (s.log ++ [Event.mk t ek]) = commitsOf u s.log := by
+        intro u hut
+        rw [commitsOf_append]
+        cases ek <;> simp [Event.commitOf, Ne.symm hut]
+      have htid : ∀ e ∈ s.log ++ [Event.mk t ek], e.tid < progs.length := by
+        intro e he
+        rcases List.mem_append.mp he with h | h
+        · exact g.tids e h
+        · simp at h; subst h; simpa [← g.len] using htlt
+      cases ek with
+      | read =>
+        simp only at heff hbl
+        obtain ⟨hc, hpo, hpr⟩ := heff
+        subst hc
+        refine ⟨?_, by simpa using g.len, by simpa using htid, ?_⟩
+        · simp only [Option.map_some, Option.toList_some]
+          rw [replay_append, g.lin]; rfl
+        intro u thu hu
+        simp only [Option.map_some, Option.toList_some] at hu ⊢
+        by_cases hut : u = t
+        · subst hut
+          rw [List.getElem?_set_self htlt] at hu
+          cases hu
+          have hco : commitsOf u (s.log ++ [Event.mk u EvKind.read]) = commitsOf u s.log := by
+            rw [commitsOf_append]; simp [Event.commitOf]
+          refine ⟨ok.tinv, by rw [hco, hpo]; exact hops, by rw [hco, hpr]; exact hres, ?_⟩
+          intro v hv _
+          exact (hbl v hv).1 rfl
+        · rw [List.getElem?_set_ne (Ne.symm hut)] at hu
+          obtain ⟨a, b, c, d⟩ := g.thr u thu hu
+          refine ⟨a, by rw [hlog u hut]; exact b, by rw [hlog u hut]; exact c, ?_⟩
+          intro v hv hn
+          rw [noCommitSince_append] at hn
+          simp [Ne.symm hut, EvKind.isCommit] at hn
+          exact d v hv hn
+      | commit o r =>
+        simp only at heff hbl
+        obtain ⟨hpo, hpr, hspec⟩ := heff
+        refine ⟨?_, by simpa using g.len, by simpa using htid, ?_⟩
+        · simp only [Option.map_some, Option.toList_some]
+          rw [replay_append, g.lin]
+          simp [applyEv, hspec]
+        intro u thu hu
+        simp only [Option.map_some, Option.toList_some] at hu ⊢
+        by_cases hut : u = t
+        · subst hut
+          rw [List.getElem?_set_self htlt] at hu
+          cases hu
+          have hco : commitsOf u (s.log ++ [Event.mk u (EvKind.commit o r)]) = commitsOf u s.log ++ [(o, r)] := by
+            rw [commitsOf_append]; simp [Event.commitOf]
+          refine ⟨ok.tinv, ?_, ?_, ?_⟩
+          · rw [hco, hops, hpo]; simp
+          · rw [hco]; simp only [List.map_append, List.map_cons, List.map_nil]; rw [hres, hpr]
+          · intro v hv _
+            exact (hbl v hv).1 rfl
+        · rw [List.getElem?_set_ne (Ne.symm hut)] at hu
+          obtain ⟨a, b, c, d⟩ := g.thr u thu hu
+          refine ⟨a, by rw [hlog u hut]; exact b, by rw [hlog u hut]; exact c, ?_⟩
+          intro v hv hn
+          rw [noCommitSince_append] at hn
+          simp [Ne.symm hut, EvKind.isCommit] at hn
+
+theorem Good_exec {w : Width} {init : Word w} {progs : List (List (Oper w))} (sched : List Nat) :
+    ∀ {s : Sys w}, Good init progs s → Good init progs (exec sched s) := by
+  induction sched with
+  | nil => intro s g; exact g
+  | cons t rest ih => intro s g; exact ih (Good_step g t)
+
+/-! ### at termination the log is a permutation of the programs -/
+
+theorem flatMap_congr' {α β : Type} (l : List β) (f g : β → List α) (h : ∀ x ∈ l, f x = g x) :
+    l.flatMap f = l.flatMap g := by
+  induction l with
+  | nil => rfl
+  | cons a l ih =>
+    simp only [List.flatMap_cons]
+    rw [h a (by simp), ih (fun x hx => h x (by simp [hx]))]
+
+theorem perm_of_proj {α : Type} (n : Nat) : ∀ (l : List (Nat × α)), (∀ e ∈ l, e.1 < n) →
+    (l.map (·.2)).Perm ((List.range n).flatMap fun t => (l.filter (fun e => e.1 == t)).map (·.2)) := by
+  induction n with
+  | zero =>
+    intro l h
+    cases l with
+    | nil => simp
+    | cons e l => exact absurd (h e (by simp)) (by omega)
+  | succ n ih =>
+    intro l h
+    rw [List.range_succ, List.flatMap_append]
+    simp only [List.flatMap_cons, List.flatMap_nil, List.append_nil]
+    have hsplit := (List.filter_append_perm (fun e : Nat × α => e.1 == n) l)
+    have h1 : (l.map (·.2)).Perm ((l.filter (fun e => !(e.1 == n))).map (·.2) ++ (l.filter (fun e => e.1 == n)).map (·.2)) := by
+      rw [← List.map_append]
+      exact (hsplit.symm.trans List.perm_append_comm).map _
+    refine h1.trans (List.Perm.append ?_ (List.Perm.refl _))
+    have h2 := ih (l.filter (fun e => !(e.1 == n))) (by
+      intro e he
+      simp only [List.mem_filter] at he
+      have := h e he.1
+      have hne : e.1 ≠ n := by simpa using he.2
+      omega)
+    refine h2.trans (List.Perm.of_eq ?_)
+    apply flatMap_congr'
+    intro t ht
+    simp only [List.mem_range] at ht
+    rw [List.filter_filter]
+    congr 1
+    apply List.filter_congr
+    intro e _
+    by_cases het : e.1 = t
+    · simp [het]; omega
+    · simp [het]
+
+theorem commitsOf_eq {w : Width} (t : Nat) (log : List (Event w)) :
+    commitsOf t log = ((commits log).filter (fun e => e.1 == t)).map (·.2) := by
+  induction log with
+  | nil => rfl
+  | cons e l ih =>
+    simp only [commitsOf, commits, List.filterMap_cons] at ih ⊢
+    cases hk : e.kind with
+    | read => simp [Event.commitOf, hk, ih]
+    | commit o r =>
+      by_cases het : e.tid = t
+      · simp [Event.commitOf, hk, het, ih]
+      · simp [Event.commitOf, hk, het, ih]
+
+theorem mem_commits {w : Width} {log : List (Event w)} {x : Nat × Oper w × Result w} (h : x ∈ commits log) :
+    ∃ e ∈ log, e.tid = x.1 := by
+  simp only [commits, List.mem_filterMap] at h
+  obtain ⟨e, he, hx⟩ := h
+  refine ⟨e, he, ?_⟩
+  cases hk : e.kind with
+  | read => simp [hk] at hx
+  | commit o r => simp [hk] at hx; rw [← hx]
+
+theorem range_map_getD {α : Type} (l : List (List α)) :
+    (List.range l.length).map (fun t => l[t]?.getD []) = l := by
+  apply List.ext_getElem
+  · simp
+  · intro i h1 h2
+    simp at h1 ⊢
+    simp [h2]
+
+/-- when every thread has finished, the committed operations are exactly all the operations of all
+    the programs, each once -/
+theorem commits_perm {w : Width} {init : Word w} {progs : List (List (Oper w))} {s : Sys w}
+    (g : Good init progs s) (hterm : ∀ th ∈ s.threads, th.todo = []) :
+    ((commits s.log).map (·.2.1)).Perm progs.flatten := by
+  have hlt : ∀ e ∈ commits s.log, e.1 < progs.length := by
+    intro x hx
+    obtain ⟨e, he, het⟩ := mem_commits hx
+    rw [← het]; exact g.tids e he
+  have h1 := (perm_of_proj progs.length (commits s.log) hlt).map (·.1)
+  have h0 : (commits s.log).map (·.2.1) = ((commits s.log).map (·.2)).map (·.1) := by simp
+  rw [h0]
+  refine h1.trans (List.Perm.of_eq ?_)
+  rw [List.map_flatMap]
+  conv => rhs; rw [← range_map_getD progs]
+  rw [List.flatMap_def]
+  congr 1
+  apply List.map_congr_left
+  intro t ht
+  simp only [List.mem_range] at ht
+  rw [← commitsOf_eq]
+  have htl : t < s.threads.length := by rw [g.len]; exact ht
+  have hth : s.threads[t]? = some s.threads[t] := List.getElem?_eq_getElem htl
+  obtain ⟨_, hops, _, _⟩ := g.thr t _ hth
+  have htodo := hterm _ (List.getElem_mem htl)
+  have hp : (s.threads[t]).pendingOps = [] := by
+    simp [Thread.pendingOps, Thread.pendingRes, htodo]
+  rw [hops, hp]; simp
+
+
 end ChibiVerif.Atomics
